@@ -9,7 +9,7 @@ use std::fmt::Debug;
 
 use lightmotif::abc::{Dna, Protein};
 use lightmotif::dense::{MatrixCoordinates, MatrixElement};
-use lightmotif::num::{PositiveLength, U1, U16, U2, U32, U4};
+use lightmotif::num::{PositiveLength, U1, U16, U2, U32, U4, U48, U64};
 use lightmotif::pli::dispatch::Dispatch;
 use lightmotif::pli::platform::{Avx2, Generic, Sse2};
 use lightmotif::pli::{Maximum, Pipeline, Threshold};
@@ -198,7 +198,7 @@ impl MCfg {
 }
 
 pub fn all_mcfgs() -> Vec<MCfg> {
-    let mut v = vec![MCfg::Gen(32), MCfg::Gen(1), MCfg::Gen(2), MCfg::Gen(4), MCfg::Gen(16), MCfg::Sse(16), MCfg::Sse(32), MCfg::Avx];
+    let mut v = vec![MCfg::Gen(32), MCfg::Gen(1), MCfg::Gen(2), MCfg::Gen(4), MCfg::Gen(16), MCfg::Sse(16), MCfg::Sse(32), MCfg::Avx, MCfg::Gen(64), MCfg::Sse(48), MCfg::Sse(64)];
     for a in cfgs::FORCED {
         v.push(MCfg::Arm(a));
     }
@@ -270,6 +270,18 @@ macro_rules! runner {
                     MCfg::Gen(16) => {
                         let (s, cells) = build::<$t, U16>(plan, &bgf);
                         (cells, 16, probe(&g, &s, ts))
+                    }
+                    MCfg::Gen(64) => {
+                        let (s, cells) = build::<$t, U64>(plan, &bgf);
+                        (cells, 64, probe(&g, &s, ts))
+                    }
+                    MCfg::Sse(48) => {
+                        let (s, cells) = build::<$t, U48>(plan, &bgf);
+                        (cells, 48, probe(&Pipeline::<Dna, Sse2>::sse2().unwrap(), &s, ts))
+                    }
+                    MCfg::Sse(64) => {
+                        let (s, cells) = build::<$t, U64>(plan, &bgf);
+                        (cells, 64, probe(&Pipeline::<Protein, Sse2>::sse2().unwrap(), &s, ts))
                     }
                     MCfg::Gen(_) => {
                         let (s, cells) = build::<$t, U32>(plan, &bgf);
@@ -405,7 +417,7 @@ fn run_planted<T: El + Runner<T>>(
                 if !ctx.mine(idx) {
                     continue;
                 }
-                for c in 0..32usize {
+                for c in 0..64usize {
                     let plan = Plan::<T> { rows, background: bg, planted: vec![(r, c, peak(bg))] };
                     for &cfg in &cfgs_ {
                         // narrow configurations see the planted column only if it exists there
@@ -551,7 +563,7 @@ pub fn run(ctx: &mut Ctx, rep: &mut Report) {
     if ctx.wants("planted") {
         rep.space(
             "planted",
-            "product: element type {f32,u8} x configuration {generic U1,U2,U4,U16,U32; sse2 U16,U32; avx2 U32; dispatcher arms; StripedScores API under each arm; Scores on the unstriped vector} \
+            "product: element type {f32,u8} x configuration {generic U1,U2,U4,U16,U32,U64; sse2 U16,U32,U48,U64; avx2 U32; dispatcher arms; StripedScores API under each arm; Scores on the unstriped vector} \
              x rows {0..=40,255,256,257,1000 (+64,100,511,2000,5000 thorough)} x background {all -inf, all -5, all 0, descending ramp (all negative), centred ramp, tiny negative ramp | u8: 0, 7, two ramps} \
              x maximum planted at every column of every row (rows<=40) or of first/last 3 rows + stride sweep, plus duplicated maxima across column halves/rows x threshold menu (below all, planted value and neighbours, background values, above all); \
              oracle: scalar scan of the cells read back through the public matrix; non-trivial = rows>0; cases distinct by construction",
